@@ -33,6 +33,9 @@ func register(name, doc string, floor int, fn func(r *Run)) *ruleInfo {
 // propRules: which rules serve which property (DESIGN.md section 4).
 var propRules = map[string][]string{}
 
+// scopedFloor: instance floors of rules served restricted to a directory ("L1@io").
+var scopedFloor = map[string]int{"L1@io": 10}
+
 func serve(prop string, names ...string) { propRules[prop] = append(propRules[prop], names...) }
 
 func main() {
@@ -147,6 +150,21 @@ func replayDir(verif string) string {
 func runRules(r *Run, names []string) (ris []*ruleInfo) {
 	for _, n := range names {
 		ri := rules[n]
+		scope := ""
+		if i := strings.Index(n, "@"); i > 0 && ri == nil {
+			// "L1@io": rule L1 restricted to the obligations located under io/
+			if base := rules[n[:i]]; base != nil {
+				scope = n[i+1:]
+				c := *base
+				c.Name = n
+				c.Doc = base.Doc + " (restricted to the sites under " + scope + "/)"
+				c.Floor = scopedFloor[n]
+				if c.Floor == 0 {
+					c.Floor = 1
+				}
+				ri = &c
+			}
+		}
 		if ri == nil {
 			r.cur = n
 			r.Undec("rule-missing", 0, "rule "+n+" is not implemented")
@@ -161,9 +179,19 @@ func runRules(r *Run, names []string) (ris []*ruleInfo) {
 					r.Undec("analyser-panic", 0, fmt.Sprintf("rule %s panicked: %v\n%s", n, e, debug.Stack()))
 				}
 			}()
+			before := len(r.Obs)
 			ri.Fn(r)
 			if r.Tier == "thorough" && ri.Thorough != nil {
 				ri.Thorough(r)
+			}
+			if scope != "" {
+				kept := r.Obs[:before]
+				for _, o := range r.Obs[before:] {
+					if strings.HasPrefix(o.Where, scope+"/") {
+						kept = append(kept, o)
+					}
+				}
+				r.Obs = kept
 			}
 		}()
 	}
